@@ -11,7 +11,7 @@ from hypothesis import strategies as st
 from .ast import ATOMS, AROMATIC, BD, CONJ, RINGS, Dist, Mol, Node, Stoch, Sys, Tok, print_token
 
 ALIPH = ["C", "C", "C", "C", "N", "O", "S", "P", "B", "[Si]", "[N+]", "[13CH2]", "[SiH]", "[NH+]", "[Ge]"]
-LEAVES = ["F", "Cl", "Br", "I", "[O-]", "O", "N", "C", "C"]
+LEAVES = ["F", "Cl", "Br", "I", "[O-]", "O", "N", "C", "C", "[2H]"]
 FF_ALIPH = ["C", "C", "C", "C", "O", "N"]
 FF_LEAVES = ["F", "Cl", "C", "C", "O"]
 WSTYLES = ["plain", "plain", "float", "exp", "lead0", "nolead"]
@@ -55,7 +55,13 @@ def token(draw, bds, max_atoms=6, chem="any", avoid=frozenset(), allow_lead=True
         ring_no = [draw(st.integers(1, 9)) if draw(st.integers(0, 5)) else draw(st.integers(10, 99))]
 
         def new_node(label, parent, order, **kw):
-            nd = Node(label, free=_val(label), **kw)
+            val = _val(label)
+            hv_ok = chem != "ff" and all(b.order == 1 for b in bds)  # RDKit rewrites X=P(=O) / X=S(=O) with X != O
+            if hv_ok and label == "S" and draw(st.integers(0, 2)) == 0:
+                val = draw(st.sampled_from([4, 6]))  # sulfoxide / sulfone type sulfur
+            if hv_ok and label == "P" and draw(st.integers(0, 2)) == 0:
+                val = 5
+            nd = Node(label, free=val, **kw)
             if parent is not None:
                 parent.children.append([order, nd, False])
                 parent.free -= order
@@ -98,12 +104,14 @@ def token(draw, bds, max_atoms=6, chem="any", avoid=frozenset(), allow_lead=True
             order = 1
             if par.free >= 2 and par.label in ("C", "N") and draw(st.integers(0, 5)) == 0:
                 order = 2
+            if par.free >= 4 and par.label in ("S", "P"):
+                order = 2  # hypervalent centre: spend two valences on =O
             if par.free >= 3 and par.label == "C" and draw(st.integers(0, 9)) == 0:
                 order = 3
             if order == 1:
                 pool = aliph + leaves if remaining > 1 else leaves + aliph
             elif order == 2:
-                pool = ["C", "O", "N", "C"] if par.label == "C" else ["C", "N"]
+                pool = ["C", "O", "N", "C"] if par.label == "C" else (["O"] if par.label in ("S", "P") else ["C", "N"])
                 pool = [x for x in pool if _val(x) >= 2]
             else:
                 pool = ["C", "N"]
@@ -420,7 +428,8 @@ def stoch_obj(draw, left_sym, right_sym, avoid=frozenset(), chem="any", arche=No
     """
     did = draw(st.sampled_from([None, None, None, 1, 2, 12]))
     sym_family = "$" if "$" in (left_sym, right_sym) else ("<>" if (left_sym or right_sym) else draw(st.sampled_from(["<>", "<>", "$"])))
-    arche = arche or draw(st.sampled_from(["homo", "copoly", "copoly", "aabb", "branch", "graft", "homo", "twoid"]))
+    arche = arche or draw(st.sampled_from(["homo", "copoly", "copoly", "aabb", "branch", "graft", "homo", "twoid"] +
+                                          (["mixed_order"] if (left_sym and left_sym != "$" and "multi_bond_bd" not in avoid) else [])))
     if sym_family == "$" and arche == "aabb":
         arche = "copoly"
     order = 1
@@ -447,6 +456,10 @@ def stoch_obj(draw, left_sym, right_sym, avoid=frozenset(), chem="any", arche=No
     elif arche == "branch":
         units.append([mk(head), mk(tail)])
         units.append([mk(head), mk(tail), mk(tail)])
+    elif arche == "mixed_order":
+        # a double-bonded entry unit next to single-bonded units: [<]=NC[>] , [<]CC[>]   (prefix must carry =[>])
+        units.append([BD(head, did, None, 2), mk(tail)])
+        units.append([mk(head), mk(tail)])
     elif arche == "twoid":
         # alternating units that are told apart by descriptor ids only
         id2 = (did or 0) + 5
@@ -588,7 +601,11 @@ def molecules(draw, avoid=frozenset(), chem="any", max_blocks=2, closed=True, im
         # element in front
         if bi == 0 and start_prefix:
             implicit = implicit_forms and draw(st.booleans())
+            if "mixed_order" in lab and draw(st.booleans()):
+                implicit = False
             bd = BD(cur_left, sto.left.id, 0.0 if implicit else draw(st.sampled_from([None, None, 0.0, 2.0])), 1)
+            if "mixed_order" in lab and not implicit:
+                bd.order = 2
             extra = [marker] if False else []
             tok = draw(token([bd], max_atoms=4, chem=chem, avoid=avoid, end_bd_last=True, allow_lead=False,
                              single_h=draw(st.integers(0, 3)) == 0 and marker is None))
